@@ -28,7 +28,6 @@ def opBinCenters (ws : List String) : String :=
     | _, _, _ => "bad-op"
   | _ => "bad-op"
 
-def irange (n : Int) : List Int := (List.range n.toNat).map (fun (k : Nat) => (k : Int))
 
 def showOpt : Option Int → String
   | none => "N"
